@@ -288,6 +288,78 @@ def eval_quoted_blanks(case):
     return Eval(V, outcome=[case['ask'], len(V)], nontrivial=case['ask'] in case['titles'], transitions=len(case['titles']) + 3)
 
 
+# ---------------------------------------------------------------------------
+# a query's answer does not depend on the query asked before it (`list` changes nothing): every ordered pair of queries
+# from a set that holds look-alikes - matchers that differ only in quotes, blanks, case, cap or connection prefix
+
+PAIR_LINES = [
+    '[1000.000] <1>  -> wl_display@1.get_registry(new id wl_registry@2)',
+    '[1000.001] <1> wl_registry@2.global(1, "wl_shm", 1)',
+    '[1000.002] <1> wl_registry@2.global(2, "1", 1)',
+    '[1000.003] <1>  -> wl_registry@2.bind(1, "wl_shm", 1, new id wl_shm@4)',
+    '[1000.004] <1>  -> wl_shm@4.create_pool(new id wl_shm_pool@5, fd 9, 4096)',
+    '[1000.005] <1>  -> wl_registry@2.bind(2, "wl_compositor", 1, new id wl_compositor@6)',
+    '[1000.006] <1>  -> wl_compositor@6.create_surface(new id wl_surface@7)',
+    '[1000.007] <1>  -> wl_surface@7.attach(nil, 0, 0)',
+    '[1000.008] <1>  -> xdg_toplevel@9.set_title("nil")',
+    '[1000.009] <1>  -> xdg_toplevel@9.set_title("wl_*")',
+    '[1000.010] <2>  -> wl_display@1.get_registry(new id wl_registry@2)',
+    '[1000.011] <2> wl_registry@2.global(1, "wl_shm", 1)',
+    '[1000.012] <2>  -> wl_display@1.sync(new id wl_callback@4)',
+    '[1000.013] <2> wl_callback@4.done(1)',
+    '[1000.014] <2> wl_display@1.delete_id(4)',
+    '[1000.015] <2>  -> wl_display@1.sync(new id wl_callback@4)',
+]
+PAIR_EXTRA = '[1000.020] <1> wl_registry@2.global(3, "nil", 1)'
+PAIR_QUERIES = ['(wl_shm)', '("wl_shm")', '(1)', '("1")', '(nil)', '("nil")', '(wl_*)', '("wl_*")', '', '*', '!', 'wl_registry', 'wl_registry ~ 1',
+                'wl_registry ~ 2', '.global', '.global(1)', '.global("1")', '(name=1)', '(interface="1")', 'A: *', 'B: *', 'A: 4a', 'B: 4a', '4a',
+                '4b', '4', '(4)', '("4")', '[', 'wl_shm', '"wl_shm"', 'WL_SHM', '( wl_shm )', '(" wl_shm ")', '.new', '.destroyed', 'wl_callback.new',
+                'wl_callback.destroyed', '(1.0)', '(1) ~ 1', '("1") ~ 1']
+_alone = {}
+
+
+def _pair_session(between):
+    s = sut.Session()
+    for l in PAIR_LINES:
+        s.feed_line(l)
+    if between == 'select_then_all':
+        s.cmd('connection B')
+        s.cmd('connection all')
+    s.take()
+    return s
+
+
+def eval_query_pair(case):
+    V = []
+    try:
+        q1, q2, between = case['first'], case['second'], case['between']
+        key = (q2, between)
+        if key not in _alone:
+            s = _pair_session(between)
+            if between == 'message':
+                s.feed_line(PAIR_EXTRA)
+            _alone[key] = s.cmd('list ' + q2)
+        s = _pair_session(between)
+        s.cmd('list ' + q1)
+        if between == 'message':
+            s.feed_line(PAIR_EXTRA)
+        elif between == 'same_again':
+            s.cmd('list ' + q1)
+        got = s.cmd('list ' + q2)
+        if got != _alone[key]:
+            V.append(Violation('list.depends_on_previous_query', case, {'asked_alone': [x[-6:] for x in _alone[key]], 'asked_after_the_other': [x[-6:] for x in got]}))
+    except Exception:
+        V.append(sut.exc_violation(case))
+    return Eval(V, outcome=[case['second'], len(V)], nontrivial=case['first'] != case['second'], transitions=len(PAIR_LINES) + 3)
+
+
+def gen_query_pairs(tier):
+    for between in ('nothing', 'message', 'same_again', 'select_then_all'):
+        for q1 in PAIR_QUERIES:
+            for q2 in PAIR_QUERIES:
+                yield {'first': q1, 'second': q2, 'between': between}
+
+
 def gen_quoted_blanks(tier):
     import itertools
     for L in (2, 3):
@@ -330,6 +402,8 @@ def run(run, tier, seed):
     run.add_part('views_of_the_record', res)
     res = explore.prod(lambda: gen_quoted_blanks(tier), eval_quoted_blanks, seed=seed, bound={'titles': TITLES})
     run.add_part('blanks_inside_quoted_strings', res)
+    res = explore.prod(lambda: gen_query_pairs(tier), eval_query_pair, seed=seed, bound={'queries': PAIR_QUERIES, 'between': 4})
+    run.add_part('query_pairs', res)
     run.rule = ('histories {0,1,12,universe messages} x current filter x selected connection x matcher x cap; each query '
                 'issued three times around a different query; non-trivial = a cap >= 1 on a non-empty history')
     run.bound = res.bound
@@ -346,4 +420,6 @@ def replay(case):
         return eval_views(case).viols
     if 'titles' in case:
         return eval_quoted_blanks(case).viols
+    if 'first' in case:
+        return eval_query_pair(case).viols
     return evaluate(case).viols
